@@ -14,6 +14,27 @@ if REPO in sys.path:
 sys.path.insert(0, REPO)
 logging.disable(logging.CRITICAL)
 
+# Optional: run the library under a non-default resolution. The library reads its settings (PPQN among them) from a
+# JSON file when scoda.settings.settings is imported and every module binds PPQN by value at import time, so the
+# alternative file has to be loaded before anything else of scoda is imported. Used by the 'alt_ppqn' shards.
+PPQN = 24
+_alt = os.environ.get("VERIF_PPQN")
+if _alt and int(_alt) != 24:
+    import json as _json
+    import tempfile as _tempfile
+    from pathlib import Path as _Path
+    import scoda.settings.settings as _settings
+    _cfg = _json.load(open(os.path.join(REPO, "scoda", "config", "default_settings.json")))
+    _cfg["general_settings"]["ppqn"] = int(_alt)
+    _root = os.path.dirname(os.path.dirname(os.path.abspath(__file__)))
+    os.makedirs(os.path.join(_root, ".cache"), exist_ok=True)
+    _fd, _path = _tempfile.mkstemp(suffix=".json", dir=os.path.join(_root, ".cache"))
+    with os.fdopen(_fd, "w") as _f:
+        _json.dump(_cfg, _f)
+    _settings.load_from_file(_Path(_path))
+    os.unlink(_path)
+    PPQN = int(_alt)
+
 from scoda.elements.message import Message  # noqa: E402
 from scoda.enumerations.message_type import MessageType as MT  # noqa: E402
 from scoda.sequences.sequence import Sequence  # noqa: E402
@@ -33,5 +54,6 @@ import scoda.sequences.sequence as _seqmod  # noqa: E402
 _origin = os.path.realpath(_seqmod.__file__)
 if not _origin.startswith(os.path.realpath(REPO) + os.sep):
     raise ImportError(f"harness error: scoda was imported from {_origin}, not from {REPO}")
-
-PPQN = 24
+import scoda.settings.settings as _s  # noqa: E402
+if _s.PPQN != PPQN or _seqmod.PPQN != PPQN:
+    raise ImportError(f"harness error: library runs with PPQN {_s.PPQN}/{_seqmod.PPQN}, harness expects {PPQN}")
